@@ -273,7 +273,7 @@ Qed.
 (* ---------- faults -------------------------------------------------------------------------------- *)
 
 Definition fault_ok (ft : fault) : Prop :=
-  match ft with FStatus code => is_2xx code = false | FLost _ => False | _ => True end.
+  match ft with FStatus code => is_2xx code = false | FLost _ | FLostPool => False | _ => True end.
 Definition is_contains (o : op) : Prop := match o with ContainsId _ | ContainsObj _ => True | _ => False end.
 Definition is_add (o : op) : Prop := match o with Add _ => True | _ => False end.
 Definition is_plain_discard (o : op) : Prop := match o with Discard _ false => True | _ => False end.
@@ -300,7 +300,7 @@ Definition faulted_outcome (o : op) (ft : fault) (out : outcome) : Prop :=
   end.
 
 Lemma do_request_fault m ft : fault_ok ft ->
-  do_request m (fault_result ft) =
+  do_request m (fault_result m ft) =
   match ft with
   | FStatus code => inl (XServer code)
   | FGarbage => match m with HEAD => inr (RHeaders None) | _ => inl XResp end
@@ -308,17 +308,28 @@ Lemma do_request_fault m ft : fault_ok ft ->
   | FDrop TOther => inl XResp
   | FLost TProto => inl XConn
   | FLost TOther => inl XResp
+  | FDropPool => if is_read m then inl XResp else inl XConn
+  | FLostPool => inl XConn
   end.
 Proof.
-  destruct ft as [code| |[]|[]]; cbn; intros H; try reflexivity; try contradiction.
-  rewrite H. destruct m; reflexivity.
+  destruct ft as [code| |[]|[]| |]; cbn; intros H; try reflexivity; try contradiction.
+  - rewrite H. destruct m; reflexivity.
+  - destruct m; reflexivity.
 Qed.
 
-Lemma send_hit c k ft sv rq : fault_ok ft -> send c (Some (k, ft)) k sv rq = (sv, fault_result ft).
+Lemma send_hit c k ft sv rq : fault_ok ft -> send c (Some (k, ft)) k sv rq = (sv, fault_result (rq_meth rq) ft).
 Proof. intros H. unfold send. rewrite Nat.eqb_refl. destruct ft; cbn in *; try reflexivity; contradiction. Qed.
 Lemma send_hit_lost c k t sv rq :
   send c (Some (k, FLost t)) k sv rq = (fst (serve c sv rq), Fail t).
 Proof. unfold send. now rewrite Nat.eqb_refl. Qed.
+(* through the pool: the lost answer to a write is not repeated; the lost answer to a lookup is, and the repetition
+   is what an undisturbed request would have been *)
+Lemma send_hit_lostpool_write c k sv rq : is_read (rq_meth rq) = false ->
+  send c (Some (k, FLostPool)) k sv rq = (fst (serve c sv rq), Fail TProto).
+Proof. intros H. unfold send. rewrite Nat.eqb_refl. cbn. now rewrite H. Qed.
+Lemma send_lostpool_read c k sv rq : is_read (rq_meth rq) = true ->
+  send c (Some (k, FLostPool)) k sv rq = send c None k sv rq.
+Proof. intros H. unfold send. rewrite Nat.eqb_refl. cbn. now rewrite H. Qed.
 Lemma send_miss c k ft n sv rq : k <> n ->
   send c (Some (k, ft)) n sv rq = (fst (serve c sv rq), Resp (snd (serve c sv rq))).
 Proof.
@@ -335,7 +346,8 @@ Lemma send_readonly c f n sv m url rv b : m = GET \/ m = HEAD ->
   fst (send c f n sv (mkReq m url rv b)) = sv.
 Proof.
   intros H. unfold send. pose proof (serve_readonly c sv (mkReq m url rv b) H) as Hs.
-  destruct f as [[k ft]|]; [destruct (Nat.eqb k n); [destruct (processed ft); [exact Hs|reflexivity]|]|];
+  destruct f as [[k ft]|];
+    [destruct (Nat.eqb k n); [destruct (repeated ft _); [|destruct (processed ft); [exact Hs|reflexivity]]|]|];
     destruct (serve c sv (mkReq m url rv b)); exact Hs.
 Qed.
 
@@ -353,8 +365,8 @@ Qed.
 Lemma get_doc_fault c k ft w i : fault_ok ft ->
   exists e, snd (get_doc c (Some (k, ft)) k w i) = inl e /\ forall o, documented o ft e.
 Proof.
-  intros Hok. unfold get_doc. rewrite (send_hit _ _ _ _ _ Hok), (do_request_fault GET ft Hok).
-  destruct ft as [code| |[]|[]]; try (exfalso; exact Hok); cbn [snd]; eexists; (split; [reflexivity|]); intros o; fin.
+  intros Hok. unfold get_doc. rewrite (send_hit _ _ _ _ _ Hok); cbn [rq_meth]; rewrite (do_request_fault GET ft Hok).
+  destruct ft as [code| |[]|[]| |]; try (exfalso; exact Hok); cbn [snd]; eexists; (split; [reflexivity|]); intros o; fin.
 Qed.
 
 Lemma fetch_all_fault c k ft : fault_ok ft -> forall ids n w acc, n <= k ->
@@ -402,6 +414,31 @@ Proof.
   destruct t; reflexivity.
 Qed.
 
+Lemma lostpool_add c w x ce : nth_error (heap (w_cl w)) x = Some ce ->
+  step c (Some (0, FLostPool)) w (Add x)
+  = (mkWorld (fst (serve c (w_sv w) (mkReq PUT (doc_url c (c_id ce)) None (Some (c_val ce))))) (w_cl w), OErr XConn, 1).
+Proof.
+  intros Hx. cbn [step]. unfold op_add. rewrite Hx, send_hit_lostpool_write by reflexivity. reflexivity.
+Qed.
+Lemma lostpool_commit c w x ce url r : nth_error (heap (w_cl w)) x = Some ce ->
+  String.eqb (c_src ce) "" = false -> parse_source (c_src ce) = Some url -> sassoc url (revs (w_cl w)) = Some r ->
+  step c (Some (0, FLostPool)) w (Commit x)
+  = (mkWorld (fst (serve c (w_sv w) (mkReq PUT url (Some r) (Some (c_val ce))))) (w_cl w), OErr XConn, 1).
+Proof.
+  intros Hx Hs Hp Hr. cbn [step]. unfold op_commit. rewrite Hx, Hs, Hp, Hr, send_hit_lostpool_write by reflexivity.
+  reflexivity.
+Qed.
+Lemma lostpool_safe_delete c w x ce r : nth_error (heap (w_cl w)) x = Some ce ->
+  sassoc (doc_url c (c_id ce)) (revs (w_cl w)) = Some r ->
+  step c (Some (0, FLostPool)) w (Discard x true)
+  = (mkWorld (fst (serve c (w_sv w) (mkReq DELETE (doc_url c (c_id ce)) (Some r) None))) (w_cl w), OErr XConn, 1).
+Proof.
+  intros Hx Hr. cbn [step]. unfold op_discard. rewrite Hx, Hr. unfold delete_phase.
+  rewrite send_hit_lostpool_write by reflexivity. reflexivity.
+Qed.
+Lemma lostpool_get c w i : step c (Some (0, FLostPool)) w (GetId i) = step c None w (GetId i).
+Proof. cbn [step]. unfold op_get, get_doc. now rewrite send_lostpool_read by reflexivity. Qed.
+
 (* calls on a nested element are the calls on its Identifiable *)
 Definition norm (o : op) : op :=
   match o with CommitChild x => Commit x | UpdateChild x => Update x | o => o end.
@@ -418,8 +455,8 @@ Proof.
   - (* add *) unfold op_add. destruct (nth_error (heap (w_cl w)) x) as [ce|]; [|cbn; lia].
     destruct k; [|destruct (send c _ 0 _ _) as [? ?]; destruct (do_request PUT n) as [?|rp];
                   [cbn; lia|destruct (reply_rev rp); cbn; lia]].
-    rewrite (send_hit _ _ _ _ _ Hok), (do_request_fault PUT ft Hok). intros _.
-    destruct ft as [code| |[]|[]]; try (exfalso; exact Hok); cbn; (split; [reflexivity|]); fin.
+    rewrite (send_hit _ _ _ _ _ Hok); cbn [rq_meth]; rewrite (do_request_fault PUT ft Hok). intros _.
+    destruct ft as [code| |[]|[]| |]; try (exfalso; exact Hok); cbn; (split; [reflexivity|]); fin.
   - (* get *) unfold op_get. pose proof (get_doc_sv c (Some (k, ft)) 0 w i) as Hsv.
     destruct k.
     + destruct (get_doc_fault c 0 ft w i Hok) as (e & He & Hd).
@@ -433,36 +470,36 @@ Proof.
     destruct (sassoc url (revs (w_cl w))) as [r|]; [|cbn; lia].
     destruct k; [|destruct (send c _ 0 _ _) as [? ?]; destruct (do_request PUT n) as [?|rp];
                   [cbn; lia|destruct (reply_rev rp); cbn; lia]].
-    rewrite (send_hit _ _ _ _ _ Hok), (do_request_fault PUT ft Hok). intros _.
-    destruct ft as [code| |[]|[]]; try (exfalso; exact Hok); cbn; (split; [reflexivity|]); fin.
+    rewrite (send_hit _ _ _ _ _ Hok); cbn [rq_meth]; rewrite (do_request_fault PUT ft Hok). intros _.
+    destruct ft as [code| |[]|[]| |]; try (exfalso; exact Hok); cbn; (split; [reflexivity|]); fin.
   - (* update *) unfold op_update. destruct (nth_error (heap (w_cl w)) x) as [ce|]; [|cbn; lia].
     destruct (String.eqb (c_src ce) ""); [cbn; lia|].
     destruct (parse_source (c_src ce)) as [url|]; [|cbn; lia].
     destruct k; [|destruct (send c _ 0 _ _) as [? ?]; destruct (do_request GET n) as [?|[?|p]];
                   [cbn; lia|cbn; lia|destruct p; cbn; lia]].
-    rewrite (send_hit _ _ _ _ _ Hok), (do_request_fault GET ft Hok). intros _.
-    destruct ft as [code| |[]|[]]; try (exfalso; exact Hok); cbn; (split; [reflexivity|]); fin.
+    rewrite (send_hit _ _ _ _ _ Hok); cbn [rq_meth]; rewrite (do_request_fault GET ft Hok). intros _.
+    destruct ft as [code| |[]|[]| |]; try (exfalso; exact Hok); cbn; (split; [reflexivity|]); fin.
   - (* discard *) unfold op_discard. destruct (nth_error (heap (w_cl w)) x) as [ce|]; [|cbn; lia].
     assert (Hdel : forall n w0, w_sv w0 = w_sv w -> k = n ->
               let r := delete_phase c (Some (k, ft)) n w0 x (c_id ce) (doc_url c (c_id ce)) in
               forall rv, w_sv (fst (fst (r rv))) = w_sv w /\ faulted_outcome (Discard x safe) ft (snd (fst (r rv)))).
-    { intros n w0 Hw0 <- r rv. subst r. unfold delete_phase. rewrite (send_hit _ _ _ _ _ Hok), (do_request_fault DELETE ft Hok).
-      destruct ft as [code| |[]|[]]; try (exfalso; exact Hok); cbn; (split; [exact Hw0|]); fin. }
+    { intros n w0 Hw0 <- r rv. subst r. unfold delete_phase. rewrite (send_hit _ _ _ _ _ Hok); cbn [rq_meth]; rewrite (do_request_fault DELETE ft Hok).
+      destruct ft as [code| |[]|[]| |]; try (exfalso; exact Hok); cbn; (split; [exact Hw0|]); fin. }
     assert (Hdel_sent : forall n w0 rv, snd (delete_phase c (Some (k, ft)) n w0 x (c_id ce) (doc_url c (c_id ce)) rv) = S n).
     { intros n w0 rv. unfold delete_phase. destruct (send c _ n _ _) as [? nr]. now destruct (do_request DELETE nr). }
     destruct (sassoc (doc_url c (c_id ce)) (revs (w_cl w))) as [r|] eqn:Er; destruct safe.
     + rewrite Hdel_sent. intros Hk. assert (k = 0) by lia. now apply Hdel.
     + destruct k.
-      * rewrite (send_hit _ _ _ _ _ Hok), (do_request_fault HEAD ft Hok). intros _.
-        destruct ft as [code| |[]|[]]; try (exfalso; exact Hok); cbn; (split; [reflexivity|]); fin.
+      * rewrite (send_hit _ _ _ _ _ Hok); cbn [rq_meth]; rewrite (do_request_fault HEAD ft Hok). intros _.
+        destruct ft as [code| |[]|[]| |]; try (exfalso; exact Hok); cbn; (split; [reflexivity|]); fin.
       * rewrite send_miss by lia.
         pose proof (serve_readonly c (w_sv w) (mkReq HEAD (doc_url c (c_id ce)) None None) (or_intror eq_refl)) as Hro.
         rewrite Hro. destruct (do_request HEAD _) as [e|[[r'|]|p]]; try (cbn; lia).
         rewrite Hdel_sent. intros Hk. assert (S k = 1) by lia. now apply Hdel.
     + cbn. lia.
     + destruct k.
-      * rewrite (send_hit _ _ _ _ _ Hok), (do_request_fault HEAD ft Hok). intros _.
-        destruct ft as [code| |[]|[]]; try (exfalso; exact Hok); cbn; (split; [reflexivity|]); fin.
+      * rewrite (send_hit _ _ _ _ _ Hok); cbn [rq_meth]; rewrite (do_request_fault HEAD ft Hok). intros _.
+        destruct ft as [code| |[]|[]| |]; try (exfalso; exact Hok); cbn; (split; [reflexivity|]); fin.
       * rewrite send_miss by lia.
         pose proof (serve_readonly c (w_sv w) (mkReq HEAD (doc_url c (c_id ce)) None None) (or_intror eq_refl)) as Hro.
         rewrite Hro. destruct (do_request HEAD _) as [e|[[r'|]|p]]; try (cbn; lia).
@@ -470,27 +507,27 @@ Proof.
   - (* contains id *) unfold op_contains.
     destruct k; [|destruct (send c _ 0 _ _) as [? nr]; destruct (do_request HEAD nr) as [e|?];
                   [destruct (is_code e 404)|]; cbn; lia].
-    rewrite (send_hit _ _ _ _ _ Hok), (do_request_fault HEAD ft Hok). intros _.
-    destruct ft as [code| |[]|[]]; try (exfalso; exact Hok); cbn; try (split; [reflexivity|]; try exact I).
+    rewrite (send_hit _ _ _ _ _ Hok); cbn [rq_meth]; rewrite (do_request_fault HEAD ft Hok). intros _.
+    destruct ft as [code| |[]|[]| |]; try (exfalso; exact Hok); cbn; try (split; [reflexivity|]; try exact I).
     + destruct (Nat.eqb_spec code 404) as [->|]; cbn; (split; [reflexivity|]); [|exact I].
       split; [exact I|]. left. auto.
     + split; [exact I|]. right. auto.
   - (* contains obj *) destruct (nth_error (heap (w_cl w)) x) as [ce|]; [|cbn; lia]. unfold op_contains.
     destruct k; [|destruct (send c _ 0 _ _) as [? nr]; destruct (do_request HEAD nr) as [e|?];
                   [destruct (is_code e 404)|]; cbn; lia].
-    rewrite (send_hit _ _ _ _ _ Hok), (do_request_fault HEAD ft Hok). intros _.
-    destruct ft as [code| |[]|[]]; try (exfalso; exact Hok); cbn; try (split; [reflexivity|]; try exact I).
+    rewrite (send_hit _ _ _ _ _ Hok); cbn [rq_meth]; rewrite (do_request_fault HEAD ft Hok). intros _.
+    destruct ft as [code| |[]|[]| |]; try (exfalso; exact Hok); cbn; try (split; [reflexivity|]; try exact I).
     + destruct (Nat.eqb_spec code 404) as [->|]; cbn; (split; [reflexivity|]); [|exact I].
       split; [exact I|]. left. auto.
     + split; [exact I|]. right. auto.
   - (* len *) unfold op_len.
     destruct k; [|destruct (send c _ 0 _ _) as [? nr]; destruct (do_request GET nr) as [e|[?|p]];
                   [cbn; lia|cbn; lia|destruct p; cbn; lia]].
-    rewrite (send_hit _ _ _ _ _ Hok), (do_request_fault GET ft Hok). intros _.
-    destruct ft as [code| |[]|[]]; try (exfalso; exact Hok); cbn; (split; [reflexivity|]); fin.
+    rewrite (send_hit _ _ _ _ _ Hok); cbn [rq_meth]; rewrite (do_request_fault GET ft Hok). intros _.
+    destruct ft as [code| |[]|[]| |]; try (exfalso; exact Hok); cbn; (split; [reflexivity|]); fin.
   - (* iter *) unfold op_iter. destruct k.
-    + rewrite (send_hit _ _ _ _ _ Hok), (do_request_fault GET ft Hok). intros _.
-      destruct ft as [code| |[]|[]]; try (exfalso; exact Hok); cbn; (split; [reflexivity|]); fin.
+    + rewrite (send_hit _ _ _ _ _ Hok); cbn [rq_meth]; rewrite (do_request_fault GET ft Hok). intros _.
+      destruct ft as [code| |[]|[]| |]; try (exfalso; exact Hok); cbn; (split; [reflexivity|]); fin.
     + rewrite send_miss by lia.
       pose proof (serve_readonly c (w_sv w) (mkReq GET (base_url c ++ "/_all_docs") None None) (or_introl eq_refl)) as Hro.
       rewrite Hro. destruct (do_request GET _) as [e|[?|p]]; try (cbn; lia).
